@@ -156,6 +156,9 @@ func LoadSource(v ssa.Value) ssa.Value {
 	if len(st) == 1 {
 		return st[0].Val
 	}
+	if len(st) > 1 {
+		return ReachingStore(a, u)
+	}
 	return nil
 }
 
